@@ -75,6 +75,12 @@ def h_roundtrip(ctx, n, twin=False):
     from spacepackets.ccsds.spacepacket import SpacePacketHeader, PacketType
     alt = PusTc.from_sp_header(SpacePacketHeader(packet_type=PacketType.TC, apid=apid, seq_count=sc, data_len=0), svc, sub, data, src, ack)
     ctx.holds("from_sp_header packs to the same octets", sym_and(alt.pack() == raw, alt.packet_len == total))
+    # whatever type / secondary-header flag / length the caller's header carried, the result is a TC with a secondary header
+    for pt in (PacketType.TM, PacketType.TC):
+        alt2 = PusTc.from_sp_header(SpacePacketHeader(packet_type=pt, apid=apid, seq_count=sc, data_len=ctx.int("any_len%d" % int(pt), 0, 65535),
+                                                      sec_header_flag=(ctx.flag("any_shf%d" % int(pt)) != 0)), svc, sub, data, src, ack)
+        ctx.holds("from_sp_header forces type TC, secondary header flag and length", sym_and(
+            alt2.pack() == raw, alt2.to_space_packet().pack() == raw, alt2.packet_len == total, alt2 == t, alt2.packet_type == 1))
     fresh = PusTc(svc, sub, apid, data, sc, src, ack)
     ctx.holds("decoded == freshly constructed, never packed", sym_and(u == fresh, fresh == u))
     # fields changed after a pack(): the space packet view follows them like pack() does
